@@ -3,6 +3,7 @@ package rules
 import (
 	"fmt"
 	"go/types"
+	"regexp"
 	"sort"
 	"strings"
 
@@ -49,8 +50,8 @@ func checkDecoderWidths(c *core.Ctx, prov *core.Prov, t *InstTables) {
 		if fn == nil {
 			continue
 		}
-		stored := map[string]bool{}   // Inst fields filled here
-		counted := map[string]bool{}  // Inst fields whose operand gets a RegCount
+		stored := map[string]bool{}    // Inst fields filled here
+		counted := map[string]bool{}   // Inst fields whose operand gets a RegCount
 		ctorCount := map[string]bool{} // filled from a constructor with a variable / >1 count
 		var visit func(g *ssa.Function, argSlot map[*ssa.Parameter]string, depth int)
 		slotOf := func(v ssa.Value, argSlot map[*ssa.Parameter]string) string {
@@ -164,7 +165,6 @@ func checkDecoderWidths(c *core.Ctx, prov *core.Prov, t *InstTables) {
 		}
 	}
 }
-
 
 // ---- R04.18: the table widths agree with the mnemonic ------------------------------
 
@@ -379,4 +379,38 @@ func widthEffect(slot int, have, want int64) string {
 		return "gives the operand one register instead of two"
 	}
 	return "gives the operand two registers instead of one"
+}
+
+// R04.19: which VOP3 instructions use the VOP3b layout (an SDST field instead of ABS /
+// OP_SEL). GCN3 manual 12.x "VOP3b: this encoding allows specifying a unique scalar
+// destination, and is used only for: V_ADD_CO_U32, V_SUB_CO_U32, V_SUBREV_CO_U32,
+// V_ADDC_CO_U32, V_SUBB_CO_U32, V_SUBBREV_CO_U32, V_DIV_SCALE_F32, V_DIV_SCALE_F64,
+// V_MAD_U64_U32, V_MAD_I64_I32" (the GCN3 names lack _CO).
+var vop3bMnemonic = regexp.MustCompile(`^v_(add|sub|subrev|addc|subb|subbrev)(_co)?_u32$|^v_div_scale_f(32|64)$|^v_mad_(u64_u32|i64_i32)$`)
+
+func checkVOP3bMembership(c *core.Ctx, t *InstTables) {
+	st := c.Rule("R04.19", "the instructions decoded with the VOP3b layout (scalar destination in bits 14..8) are exactly those the ISA names: every decode-table row in the VOP3 opcode space (256 and above) whose mnemonic is v_add/sub/subrev/addc/subb/subbrev[_co]_u32, v_div_scale_f32/f64, v_mad_u64_u32 or v_mad_i64_i32 is a VOP3b row, and no other mnemonic is; a carry-writing instruction tabled VOP3a has its SDST field read as ABS modifiers and never writes its carry", 8)
+	for _, r := range t.Rows {
+		if (r.Format != "VOP3a" && r.Format != "VOP3b") || r.Opcode < 256 {
+			continue
+		}
+		name := strings.TrimSpace(r.Name)
+		is := vop3bMnemonic.MatchString(baseMnemonic(name))
+		if !is && r.Format != "VOP3b" {
+			continue
+		}
+		st.Instances++
+		ok := is == (r.Format == "VOP3b")
+		st.Ob(ok)
+		if ok {
+			continue
+		}
+		if is {
+			c.Report(core.Finding{Rule: "R04.19", Pkg: instsPkg, Func: "DecodeTable", Detail: "vop3b-tabled-vop3a:" + name, Pos: c.Position(r.Pos),
+				Msg: fmt.Sprintf("%s (opcode %d) has a scalar destination (VOP3b layout) but is tabled %s: bits 14..8 are decoded as ABS / OP_SEL, Inst.SDst stays nil and the carry-out is never written (`D1E80400 041A0702` prints as v_mad_u64_u32 v0, v2, v3, |v6|)", name, r.Opcode, r.Format)})
+		} else {
+			c.Report(core.Finding{Rule: "R04.19", Pkg: instsPkg, Func: "DecodeTable", Detail: "vop3a-tabled-vop3b:" + name, Pos: c.Position(r.Pos),
+				Msg: fmt.Sprintf("%s (opcode %d) has no scalar destination but is tabled VOP3b: its ABS / OP_SEL bits are decoded as an SDST register", name, r.Opcode)})
+		}
+	}
 }
